@@ -1,26 +1,8 @@
 import ChiDriver.Common
 import ChiModel.Covariate
+import ChiModel.ErfFloat
 open Wire ChiModel
 namespace ChiDriver.C07
-
-/-- erf(x) = 2/√π · e^{-x²} · Σ_{n≥0} 2^n x^{2n+1} / (1·3·…·(2n+1)); all terms positive
-    (max relative error 2.2e-15 against scipy on the prototype). Transport only. -/
-def erfF (x : Float) : Float :=
-  let ax := x.abs
-  if ax > 6.0 then (if x > 0 then 1.0 else -1.0) else
-  let x2 := ax * ax
-  let rec go (fuel : Nat) (n : Nat) (term : Float) (acc : Float) : Float :=
-    match fuel with
-    | 0 => acc
-    | fuel + 1 =>
-      let acc' := acc + term
-      if acc' == acc then acc else
-      go fuel (n + 1) (term * 2.0 * x2 / (2.0 * (Float.ofNat n) + 3.0)) acc'
-  let s := go 400 0 ax 0.0
-  let r := 2.0 / Float.sqrt 3.141592653589793 * Float.exp (-x2) * s
-  if x < 0 then -r else r
-
-local instance : HasErf Float := ⟨erfF⟩
 
 def kindOf : String → Option Kind
   | "Gc" => some (.gauss true) | "Gnc" => some (.gauss false)
@@ -97,7 +79,7 @@ def cfgOf (nDim perDim nCov : Int) (sel : List Pair) : CovCfg :=
 
 /-- `C07.eval kind nIds nDim perDim nCov sel params cov obs eta`
     → ϑ (flattened `(n_ids, n_per_dim, n_dim)`), log-likelihood (code as it is),
-      log-likelihood (individual i ↔ row i for heterogeneous), individual parameters -/
+      log-likelihood (pre-04b584d variant, informational), individual parameters -/
 def eval : Op
   | [.str ks, .int nIds, .int nDim, .int perDim, .int nCov, selv, pv, covv, obsv, etav] => do
     let k ← kindOf ks
@@ -112,9 +94,9 @@ def eval : Op
     let th := covTh c (vecOf params) cov
     let thFlat := (List.range n).flatMap (fun i => (List.range c.perDim).flatMap (fun p =>
       (List.range c.nDim).map (fun d => th i p d)))
-    let ll := match covLL true k c n params cov obs with
+    let ll := match covLL k c n params cov obs with
       | .ok s => scoreVal s | .error _ => errVal "valueError"
-    let ll2 := match covLL false k c n params cov obs with
+    let ll2 := match covLLLegacy k c n params cov obs with
       | .ok s => scoreVal s | .error _ => errVal "valueError"
     let ind := match covIndiv k c n params cov eta with
       | .ok rows => Val.list (rows.map (fun r => .list (r.map psiVal)))
@@ -124,7 +106,8 @@ def eval : Op
 
 /-- `C07.sens kind nIds nDim perDim nCov sel cov g dpsi`
     (`g` = the wrapped model's `dvartheta`, flattened `(n_ids, n_per_dim, n_dim)`)
-    → dtheta, reduced form as the code is, reduced form intended, (n_bottom, n_top) -/
+    → dtheta, reduced form (code as it is), reduced form (pre-3d6f67b variant, informational),
+      (n_bottom, n_top), dtheta by position -/
 def sens : Op
   | [.str ks, .int nIds, .int nDim, .int perDim, .int nCov, selv, covv, gv, dpsiv] => do
     let k ← kindOf ks
@@ -137,8 +120,8 @@ def sens : Op
     if gl.length ≠ n * c.perDim * c.nDim then return [errVal "valueError"]
     let g : Nat → Nat → Nat → Float := fun i p d => gl.getD ((i * c.perDim + p) * c.nDim + d) 0.0
     let nh := covNHier k c n
-    some [ofFlts (covDTheta c n g cov), ofFlts (covReduced true k c n dpsi g cov),
-      ofFlts (covReduced false k c n dpsi g cov), .int (Int.ofNat nh.1), .int (Int.ofNat nh.2),
+    some [ofFlts (covDTheta c n g cov), ofFlts (covReduced k c n dpsi g cov),
+      ofFlts (covReducedLegacy c n dpsi g cov), .int (Int.ofNat nh.1), .int (Int.ofNat nh.2),
       ofFlts ((List.range c.nParams).map (covSensAt c n g cov))]
   | _ => none
 
@@ -176,8 +159,23 @@ def legacy : Op
       match legacyDedupArray ps with | .ok _ => .str "ok" | .error e => errVal (selErrName e)]
   | _ => none
 
+/-- `C07.setnids n0 nDim nCov n` — wrap a heterogeneous model with `n0` individuals, then
+    `set_n_ids(n)`: n_parameters, number of names, evaluable? (code as it is), and the same for the
+    proposed repair -/
+def setnids : Op
+  | [.int n0, .int nDim, .int nCov, .int n] =>
+    let h0 := CovHet.construct n0.toNat nDim.toNat nCov.toNat
+      ((List.range nDim.toNat).map (fun j => "Dim. " ++ toString (j + 1)))
+      ((List.range nCov.toNat).map (fun j => "Cov. " ++ toString (j + 1)))
+    let h := h0.setNIds n.toNat
+    let hi := h0.setNIdsIntended n.toNat
+    some [.int (Int.ofNat h.nParameters), .int (Int.ofNat (h.m.parameterNames false).length),
+      .bool h.evaluable, .int (Int.ofNat hi.nParameters),
+      .int (Int.ofNat (hi.m.parameterNames false).length), .bool hi.evaluable]
+  | _ => none
+
 def ops : List (String × Op) :=
   [("C07.linselect", linselect), ("C07.select", select), ("C07.names", names), ("C07.eval", eval),
-   ("C07.sens", sens), ("C07.sample", sample), ("C07.legacy", legacy)]
+   ("C07.sens", sens), ("C07.sample", sample), ("C07.legacy", legacy), ("C07.setnids", setnids)]
 
 end ChiDriver.C07
